@@ -14,6 +14,7 @@ package loadaware
 import (
 	"context"
 	"fmt"
+	"os"
 	"sort"
 	"strings"
 	"testing"
@@ -421,9 +422,15 @@ func (s *c08Sys) tag() string {
 	return strings.Join(tags[:1], "+")
 }
 
+// viol: violations in states that a rare event has touched (see tag) are filed under one key per rare-event class,
+// all others under clause + query. Defects that do not depend on the rare event are also reachable - at the same
+// or a smaller depth - without it, so nothing hides behind a rare-event key.
 func (s *c08Sys) viol(clause, q, what string) mc.Violation {
-	return mc.Violation{Key: "C08|hist|" + clause + "|" + q + "|" + s.tag(),
-		What: fmt.Sprintf("[%s] after %s: %s", s.cfg.name, s.last, what)}
+	key := "C08|hist|" + clause + "|" + q
+	if t := s.tag(); t != "plain" {
+		key = "C08|hist|rare-event|" + t
+	}
+	return mc.Violation{Key: key, What: fmt.Sprintf("[%s] after %s: %s (%s)", s.cfg.name, s.last, what, clause)}
 }
 
 func (s *c08Sys) get(c *podAssignCache, node string, q c08Query) (c08Vec, bool, error) {
@@ -608,8 +615,6 @@ func (s *c08Sys) Key() string {
 // ---------------------------------------------------------------------------------------------------------------
 // alphabets
 
-func c08Ptr[T any](v T) *T { return &v }
-
 func c08Kinds(custom bool) []*c08Kind {
 	x := &c08Kind{Name: "x", Base: c08PodSpec{Name: "x", Label: extension.PriorityProd, Flavor: c08Native, Req: c08Vec{1000, 10 * c08M}, Lim: c08Vec{2000, 20 * c08M},
 		Phase: corev1.PodPending, Window: -1}, AltReq: c08Vec{1000, 10 * c08M}, AltLim: c08Vec{3000, 20 * c08M}, FlipLabel: extension.PriorityBatch}
@@ -708,9 +713,12 @@ func c08Configs(env *mc.Env) []*c08Cfg {
 	// two nodes: nodeName changes, binding to another node than the assumed one
 	add(&c08Cfg{name: "2nodes-xz", args: c08Args(0, false, false), nodes: []string{"n1", "n2"}, kinds: pick(c08Kinds(false), "xz"),
 		metrics: map[string][]*c08MetricVar{"n1": {m1[1], m1[3]}, "n2": m2}, depth: [2]int{4, 6}})
-	// rare but producible events, reported under their own keys
-	add(&c08Cfg{name: "1node-rare-xy", args: c08Args(90, true, false), nodes: []string{"n1"}, kinds: pick(c08Kinds(true), "xy"), rare: true,
-		metrics: map[string][]*c08MetricVar{"n1": {m1[1], m1[3]}}, depth: [2]int{5, 6}})
+	// rare but producible events, reported under their own keys (VERIF_C08_SKIP_RARE=1 leaves the part out, e.g. to
+	// look at mutants while its findings are not yet registered in known_findings.json)
+	if os.Getenv("VERIF_C08_SKIP_RARE") == "" {
+		add(&c08Cfg{name: "1node-rare-xy", args: c08Args(90, true, false), nodes: []string{"n1"}, kinds: pick(c08Kinds(true), "xy"), rare: true,
+			metrics: map[string][]*c08MetricVar{"n1": {m1[1], m1[3]}}, depth: [2]int{5, 6}})
+	}
 	return cfgs
 }
 
